@@ -54,6 +54,10 @@ def for_property(prop: str):
         "dict": sx_dict,
     }
     mods["aiortc.rtcrtpreceiver"] = Profile(recv, rewrite={"join", "containers"})
+    mods["aiortc.codecs.h264"] = Profile(basic, rewrite={"join"})
+    mods["aiortc.codecs.vpx"] = Profile(basic, rewrite={"join"})
+    snd = {"int": shims.sx_int, "bytes": shims.sx_bytes, "range": shims.sx_range, "dict": sx_dict, "set": sx_set}
+    mods["aiortc.rtcrtpsender"] = Profile(snd, rewrite={"join", "containers"})
     dtls = {"set": sx_set, "dict": sx_dict, "bytes": shims.sx_bytes, "int": shims.sx_int}
     mods["aiortc.rtcdtlstransport"] = Profile(dtls, rewrite={"join", "containers"})
     return {"modules": mods, "default": None}
